@@ -34,7 +34,7 @@ def pf_texts(rng, names, per):
 def expr_texts(rng, n):
     ops = ["+", "-", "*", "/", "^", "mod", "div", "round", "=", "<", ">", "<=", ">=", "!=", "<>", "and", "or", "not", "e", "(",
            ")", "ceil", "floor", "trunc", "abs", "sqrt", "ln", "exp", "sin", "cos", "tan", "asin", "acos", "atan", "pi", ".",
-           "1", "0", "2", "9999", "0.5", "-", "1e400", "3", "99999999", "308", "309", "1e-400"]
+           "1", "0", "2", "9999", "0.5", "-", "1e400", "3", "99999999", "308", "309", "1e-400", "300", "-1e8", "1e9", "7"]
     out = []
     for _ in range(n):
         toks = [rng.choice(ops) for _ in range(rng.randint(1, 7))]
@@ -49,7 +49,10 @@ PF_CORPUS = [
     ("#expr", "{{#expr: " + " * ".join(["1 e 308"] * 15) + "}}"), ("#expr", "{{#expr: 1/0}}"), ("#expr", "{{#expr: ln 0}}"),
     ("#expr", "{{#expr: 2 ^ 99999999}}"), ("#expr", "{{#expr: exp 1000}}"), ("#rel2abs", "{{#rel2abs:}}"),
     ("#invoke", "{{#invoke:}}"), ("TALKSPACE", "{{TALKSPACE}}"), ("TALKPAGENAME", "{{TALKPAGENAME}}"),
-]
+    ("#expr", "{{#expr:5 round -1e8}}"), ("#expr", "{{#expr:5 round 1e9}}"), ("#expr", "{{#expr:7^300^300^300}}"),
+    ("#expr", "{{#expr:7^300^300^300^300}}"), ("#expr", "{{#expr:2 e 308 e 308 e 308}}"),
+] + [("#expr", "{{#expr:" + "(" * d + "1" + ")" * d + "}}") for d in (10, 50, 90, 150, 1000)] \
+  + [("#expr", "{{#expr:" + op * d + "1}}") for d in (10, 100, 1000, 3000) for op in ("- ", "not ", "+ ", "abs ", "- not ")]
 
 
 def classify_exc(fn, r):
